@@ -50,6 +50,9 @@ type ChildCase struct {
 	// program: 1 = "ret ALLOW" everywhere, 2 = zero words (refused by the kernel), 3 = collections only.
 	// Correct code is unaffected (the program stays reachable until the kernel has copied it).
 	GCSpray int `json:"gc_spray,omitempty"`
+	// PauseBetweenProbes: the child (whose goroutine locked its OS thread before the load, as the judged caller does) sleeps
+	// and yields between the probes and reports the thread every probe ran on: it must stay the thread that loaded.
+	PauseBetweenProbes bool `json:"pause_between_probes,omitempty"`
 	// SiblingLoads: while the judged load runs, this many other pinned threads load another (harmless) policy without
 	// thread-sync, on one P and with a pause inside every load between prctl and the seccomp call.
 	SiblingLoads int `json:"sibling_loads,omitempty"`
